@@ -45,18 +45,18 @@ META = {
 }
 
 E4 = "bounded-exhaustive enumeration of closed simulator systems (input trace x network delay x machine sets on client/server x arguments) executed on the real sim_advanced"
-SIMNOTE = "Traces of a few packets, two-state deterministic gadget machines (S-library), no integration delays; the per-side replay through a fresh real Framework with the same seed recovers the actions the simulator acted on (relies on C05 determinism)."
+SIMNOTE = "Traces of a few packets, two-state deterministic gadget machines (S-library) enumerated exhaustively, plus a labelled sampled supplement of closed systems with generated 3-6 state machines; no integration delays; the per-side replay through a fresh real Framework with the same seed recovers the actions the simulator acted on (relies on C05 determinism)."
 META.update({
  "C14": dict(engine="E4", cat="model_checking", ref="5 C14",
    text="All input traces up to a length bound over window-edge gaps and both directions x network delays x both APIs (sim, sim_advanced) x every output-filter combination, run on the real simulator without machines; oracle: the network-visible events equal the input trace exactly (mirrored, shifted by the delay at the server), nothing else.",
    note="Traces <= 4 (quick) / 5 packets over gaps {0,1ns,1us,100ms,100ms+1ns,1s}; delays {0,1ns,10ms}.",
    tech="bounded-exhaustive enumeration of inputs executed on the real simulator against an independent reference trace"),
  "C15": dict(engine="E4", cat="model_checking", ref="5 C15",
-   text=E4 + "; oracle on the unfiltered trace: time order, exact matching of every TunnelRecv to a distinct earlier TunnelSent of the same kind on the other side at least one network delay before, normal-packet conservation per side (equality when the run ended by itself).",
+   text=E4 + "; oracle on the unfiltered trace: time order, exact matching of every TunnelRecv to a distinct earlier TunnelSent of the same kind on the other side at least one network delay before, normal-packet conservation per side (equality when the run ended by itself); includes systems with more than a thousand packets held back by one block.",
    note=SIMNOTE, tech="bounded-exhaustive enumeration of closed systems on the real simulator with a conservation/causality oracle"),
  "C16": dict(engine="E4", cat="model_checking", ref="5 C16",
    text=E4 + " for sets containing blocking gadgets (all four bypass/replace combinations, overlapping and back-to-back blocks, durations from 0); per-side monitor bound to the run by replay: blocking window per the contract, exactly one BlockingEnd at expiry after the begin, every TunnelSent inside the window bypass-flagged, allowed by every action that started/updated the blocking, and earned by a bypass padding action.",
-   note=SIMNOTE + " Known finding: zero-duration BlockOutgoing (known_findings.txt).", tech="bounded-exhaustive enumeration of closed systems on the real simulator with a replay-bound blocking-window monitor"),
+   note=SIMNOTE + " Known finding: latest-wins bypass flag (known_findings.txt).", tech="bounded-exhaustive enumeration of closed systems on the real simulator with a replay-bound blocking-window monitor"),
  "C17": dict(engine="E4", cat="model_checking", ref="5 C17",
    text=E4 + " for sets with padding/blocking/cancel gadgets (timeouts from 0, actions re-issued before firing, cancels of each timer kind, several machines per side); per-machine monitor bound by replay: every PaddingSent/BlockingBegin is the firing of the most recent action at issue time + timeout, once; superseded or cancelled actions never fire; unsuperseded ones fire before time moves past them.",
    note=SIMNOTE, tech="bounded-exhaustive enumeration of closed systems on the real simulator with a replay-bound action-timer monitor"),
@@ -64,7 +64,7 @@ META.update({
    text=E4 + " for sets with UpdateTimer gadgets (both replace settings, durations from 0, repeated updates at one instant, cancels, several machines, both sides); per-machine monitor bound by replay: expiry per the UpdateTimer contract, TimerBegin at the instant of every setting action, TimerEnd exactly once at the expiry, never for cancelled/superseded timers; timers expiring while a block is active; a further set of systems runs pure timer gadgets under a constant integration reporting delay with a trace-level monitor.",
    note=SIMNOTE, tech="bounded-exhaustive enumeration of closed systems on the real simulator with a replay-bound internal-timer monitor"),
  "C19": dict(engine="E4", cat="model_checking", ref="5 C19",
-   text=E4 + " x packets-per-second limits {none,1,2,10,1000,2^32-1,2^32,usize::MAX} x stop conditions x all filter combinations x seeds; oracle: no panic (crash containment), two runs on clones of the same queue identical, filtered outputs equal the projection (prefix under a length cap) of the unfiltered trace, stop bounds respected, time order.",
+   text=E4 + " x packets-per-second limits {none,1,2,10,1000,2^32-1,2^32,usize::MAX} x stop conditions x all filter combinations x seeds; oracle: no panic (crash containment), two runs on clones of the same queue identical, filtered outputs equal the projection (prefix under a length cap) of the unfiltered trace, stop bounds respected (incl. bounds 2^33, 2^48 and usize::MAX), time order; systems with 12 000 - 60 000 pending aggregate delays run on a 2 MiB stack (a stack overflow is a crash verdict).",
    note=SIMNOTE, tech="bounded-exhaustive enumeration of closed systems and argument grids on the real simulator with differential (run-twice, filtered-vs-projection) oracles"),
 })
 
